@@ -17,7 +17,7 @@ VARY_WRITE_CAP = True  # W4: partial raw data writes (sim.disk)
 VARY_KNOBS = True  # module-level tuning constants of the library are lowered in some runs (sim.core.lower_tuning_constants)
 SHRINK_LISTS = ("ops", "faults")
 SHRINK_MIN = {"nchans": 1, "nbits": 1, "n": 1}
-SHRINK_SIMPLE = {"write_cap": None, "knobs": None, "stale": 0}
+SHRINK_SIMPLE = {"write_cap": None, "knobs": None, "stale": 0, "hdr_pad": 0}
 KINDS = ["fil", "fil", "fil", "block", "tim", "dat", "spec", "fft"]
 DT = ["uint8", "uint16", "int64", "float32", "float64"]
 # further in-memory types a caller holds (astropy hands out big-endian arrays; integer arithmetic gives int32/int16):
@@ -87,6 +87,7 @@ def generate(rng, tier) -> dict:
     # the output path already holds a LONGER file (an earlier run of the same script with a longer range):
     # state left on the disk by a previous session, which the new product must replace, not overlay
     sc["stale"] = rng.choice([0, 0, 0, 1, 7, 64, rng.randint(1, 4096)])
+    sc["hdr_pad"] = rng.choice([0, 0, rng.randint(0, 9), rng.randint(0, 700), rng.randint(0, 700)])
     return sc
 
 
@@ -141,7 +142,9 @@ def chunk_values(sc, op, t0):
 def base_header(ctx, nchans):
     from sigpyproc.readers import FilReader
 
-    spec = {"nbits": 8, "nchans": nchans, "nsamps": [1], "vseed": 1, "mode": "small"}
+    # the free-text strings travel into every product's header: their length decides the product's header length
+    pad = int((getattr(ctx, "sc", None) or {}).get("hdr_pad") or 0)
+    spec = {"nbits": 8, "nchans": nchans, "nsamps": [1], "vseed": 1, "mode": "small", "pad": [pad]}
     fs = filgen.write_fileset(ctx.root, spec, stem="base")
     r = FilReader(fs.paths)
     h = r.header
